@@ -25,6 +25,8 @@ type nativeCase struct {
 	Obs     map[string]string `json:"obs,omitempty"`
 	Records map[string]int64  `json:"records,omitempty"`
 	Params  map[string]int    `json:"params,omitempty"`
+	Dir     string            `json:"dir,omitempty"`
+	Phase   int               `json:"phase,omitempty"`
 }
 
 type nativeResult struct {
